@@ -39,9 +39,9 @@ REQUIRED_COUNTERS = ["runs", "thread_runs", "process_runs", "contended_objects",
 def make_workspaces(rng, d, n):
     pool = [gen.small_content(rng) for _ in range(rng.randrange(4, 10))] + [b"", gen.content(rng, big=0.2)]
     trees = []
-    ident = rng.random() < 0.4
+    ident = rng.random() < 0.6
     for i in range(n):
-        if ident and i >= 1 and rng.random() < 0.5:
+        if ident and i >= 1 and rng.random() < 0.7:
             files = dict(trees[rng.randrange(len(trees))])
         else:
             files = {}
